@@ -276,6 +276,8 @@ fn mon_c04(snap: &Snap, workers: usize, limit: usize, armed: &mut BTreeMap<Strin
     let mut bit_clear: BTreeMap<usize, bool> = BTreeMap::new();
     let mut failed_in_turn: Vec<usize> = vec![];
     let mut forced_onto: Vec<usize> = vec![];
+    let mut pair_clean = workers >= 2;
+    let mut last_clean_dispatch: Option<(usize, usize)> = None;
     for (step, _, r) in &snap.log {
         // connections of a dead worker no longer belong to the worker index that is reused by its replacement
         if let Rec::WorkerGone { slot } = r {
@@ -315,7 +317,13 @@ fn mon_c04(snap: &Snap, workers: usize, limit: usize, armed: &mut BTreeMap<Strin
         }
         ip.apply(r);
         match r {
-            Rec::AcceptState { avail, .. } => {
+            Rec::AcceptState { avail, handles, .. } => {
+                // round-robin over whatever handles there are: with at least two handles, all of them
+                // available, two dispatches in a row never go to the same worker
+                pair_clean = handles.len() >= 2 && handles.iter().all(|h| avail & (1u128 << h) != 0);
+                if !pair_clean {
+                    last_clean_dispatch = None;
+                }
                 // "while no worker is saturated" is read at the moment of each dispatch: a dispatch
                 // counts if every availability bit was set when it was made (bits are cleared only by
                 // a saturating dispatch or a fault, so: set at the previous turn boundary and no
@@ -330,10 +338,28 @@ fn mon_c04(snap: &Snap, workers: usize, limit: usize, armed: &mut BTreeMap<Strin
                 // worker is available" does not hold until a later turn boundary shows all bits again
                 all_avail = false;
                 window.clear();
+                pair_clean = false;
+                last_clean_dispatch = None;
             }
             Rec::Dispatch { conn: Some(c), worker, .. } => {
                 if bit_clear.get(worker) == Some(&true) && ip.count(*worker) > limit {
                     // dispatch to a worker marked unavailable beyond its limit is C02's finding
+                }
+                if pair_clean {
+                    if let Some((pc, pw)) = last_clean_dispatch {
+                        if pw == *worker {
+                            out.push((
+                                "C04:same-worker-twice-in-a-row".to_string(),
+                                format!("step {step}: connections {pc} and {c} were dispatched one after the other to worker {worker} although the accept loop held at least two handles and all of them were available"),
+                            ));
+                            break;
+                        }
+                    }
+                    last_clean_dispatch = Some((*c, *worker));
+                    if ip.count(*worker) >= limit {
+                        pair_clean = false;
+                        last_clean_dispatch = if limit == 1 { None } else { last_clean_dispatch };
+                    }
                 }
                 if !all_avail {
                     window.clear();
@@ -362,6 +388,21 @@ fn mon_c04(snap: &Snap, workers: usize, limit: usize, armed: &mut BTreeMap<Strin
                 }
             }
             _ => {}
+        }
+    }
+    // each index is tracked on its own: at quiescence a live worker with room is not marked full
+    if out.is_empty() && snap.quiescent && running(snap) && !pause_pending(snap) {
+        if let Some(a) = &snap.accept {
+            for idx in &a.handles {
+                if let Some(w) = snap.live_worker(*idx) {
+                    let n = snap.conns.iter().filter(|c| matches!(c.phase, Phase::Serving(s) if s == w.slot)).count() + w.view.as_ref().map_or(0, |v| v.queued);
+                    let ready = w.view.as_ref().map_or(false, |v| v.state == "available");
+                    if n < limit && ready && !snap.avail(*idx) {
+                        out.push(("C04:idle-worker-marked-unavailable".to_string(), format!("quiescent: worker {idx} has {n} of {limit} connections in progress and is ready, nothing is queued for the accept loop, yet its availability bit is clear: it will not be given anything")));
+                        break;
+                    }
+                }
+            }
         }
     }
     out
@@ -866,8 +907,11 @@ fn mon_c08(snap: &Snap, workers: usize, limit: usize, armed: &mut BTreeMap<Strin
             let died = snap.workers.iter().any(|w| w.idx == *idx && w.finished && snap.log.iter().any(|(_, _, r)| matches!(r, Rec::WorkerDying { slot } if *slot == w.slot)));
             if died && snap.live_worker(*idx).is_none() && !snap.avail(*idx) {
                 let waiting: Vec<usize> = snap.conns.iter().enumerate().filter(|(_, c)| c.phase == Phase::Backlog && !c.eof).map(|(i, _)| i).collect();
+                // were connections sitting un-received in its queue when it died? (they are dropped
+                // without counting down: finding F10) - otherwise something else kept its bit clear
+                let queued_at_death = snap.conns.iter().any(|c| c.phase == Phase::Queued(*idx) && c.calls == 0);
                 out.push((
-                    "C08:dead-worker-never-discovered".to_string(),
+                    if queued_at_death { "C08:dead-worker-never-discovered:unreceived-connections-died-with-its-queue" } else { "C08:dead-worker-never-discovered" }.to_string(),
                     format!("quiescent: worker {idx} has died, the accept loop still holds its handle and marks it unavailable (counter {:?}), so nothing will ever be sent to it, its death is never discovered and no replacement is started (connections waiting: {:?})", a.counters.iter().find(|(i, _)| i == idx).map(|(_, c)| *c), waiting),
                 ));
                 break;
@@ -976,6 +1020,8 @@ fn specs_for(prop: &'static str, tier: Tier) -> Vec<SpecImpl> {
             v.push(mk(cfg(2, &[Uds], 1), Bounds { connects: 3, kills: 1, ..Default::default() }));
             // completions while paused: the notification must not be lost
             v.push(mk(cfg(1, &[Uds], 1), Bounds { connects: 3, cmds: vec![Ev::Pause, Ev::Resume], max_cmds: 2, ..Default::default() }));
+            // a listener's back-off ends while every worker is full (filled through the other listener)
+            v.push(mk(cfg(1, &[Uds, Uds], 1), Bounds { connects: 3, connect_listeners: vec![0, 1], injects: vec![(0, ErrKind::Emfile)], max_injects: 1, advances: vec![510], max_advances: 1, ..Default::default() }));
             // a connection's service future panics: its slot is released all the same
             v.push(mk(cfg(1, &[Uds], 1), Bounds { connects: 3, conn_panics: 1, ..Default::default() }));
             v.push(mk(cfg(1, &[Uds], 2), Bounds { connects: 4, conn_panics: 2, ..Default::default() }));
@@ -991,6 +1037,8 @@ fn specs_for(prop: &'static str, tier: Tier) -> Vec<SpecImpl> {
             }
             // three workers: the rotation steps over a full worker
             v.push(mk(cfg(3, &[Uds], 1), Bounds { connects: 4, ..Default::default() }));
+            // a listener comes back from an accept-error back-off while every worker is full
+            v.push(mk(cfg(1, &[Uds, Uds], 1), Bounds { connects: 3, connect_listeners: vec![0, 1], injects: vec![(0, ErrKind::Emfile)], max_injects: 1, advances: vec![510], max_advances: 1, ..Default::default() }));
             // two listeners with waiting clients: capacity freed by one completion is handed out once
             v.push(mk(cfg(1, &[Uds, Uds], 1), Bounds { connects: 3, connect_listeners: vec![0, 1], ..Default::default() }));
             // readiness changes of the service must not make a saturated worker look available
@@ -1042,6 +1090,9 @@ fn specs_for(prop: &'static str, tier: Tier) -> Vec<SpecImpl> {
             v.push(mk(cfg(2, &[Uds], 1), Bounds { connects: 4, kills: 1, ..Default::default() }));
             // pause / resume must not hand anything to a saturated worker
             v.push(mk(cfg(2, &[Uds], 1), Bounds { connects: 3, cmds: vec![Ev::Pause, Ev::Resume], max_cmds: 2, ..Default::default() }));
+            // three workers, one of the lower ones is replaced: rotation and availability of the others
+            v.push(mk(cfg(3, &[Uds], 1), Bounds { connects: 4, kills: 1, ..Default::default() }));
+            v.push(mk(cfg(3, &[Uds], 4), Bounds { connects: 4, kills: 1, completes: false, ..Default::default() }));
             if !q {
                 v.push(mk(cfg(3, &[Uds], 1), Bounds { connects: 4, kills: 1, ..Default::default() }));
                 v.push(mk(cfg(2, &[Uds], 2), Bounds { connects: 5, kills: 1, ..Default::default() }));
@@ -1062,6 +1113,8 @@ fn specs_for(prop: &'static str, tier: Tier) -> Vec<SpecImpl> {
                 v.push(mk(cfg(1, &[Uds], 2), Bounds { connects: 2, injects: vec![(0, ErrKind::Emfile)], max_injects: 1, cmds: cmds.clone(), max_cmds: 3, ..Default::default() }));
                 // back-off of one listener while the other keeps the accept loop busy; clock in steps below the back-off
                 v.push(mk(cfg(1, &[Uds, Uds], 2), Bounds { connects: 2, connect_listeners: vec![0, 1], injects: vec![(0, ErrKind::Emfile)], max_injects: 1, advances: vec![300], max_advances: 3, ..Default::default() }));
+                // a back-off ends while the only worker is full
+                v.push(mk(cfg(1, &[Uds, Uds], 1), Bounds { connects: 3, connect_listeners: vec![0, 1], injects: vec![(0, ErrKind::Emfile)], max_injects: 1, advances: vec![510], max_advances: 1, ..Default::default() }));
                 // overlapping back-offs of two listeners: each comes back at its own deadline
                 v.push(mk(cfg(1, &[Uds, Uds], 2), Bounds { connects: 2, connect_listeners: vec![0, 1], injects: vec![(0, ErrKind::Emfile), (1, ErrKind::Emfile)], max_injects: 2, advances: vec![300], max_advances: 3, ..Default::default() }));
             } else {
@@ -1089,6 +1142,8 @@ fn specs_for(prop: &'static str, tier: Tier) -> Vec<SpecImpl> {
                 v.push(mk(cfg(1, &[Tcp], 1), Bounds { connects: 2, cmds: vec![Ev::Pause, Ev::Stop(true), Ev::Stop(false)], max_cmds: 2, advances: vec![1000], max_advances: 3, ..Default::default() }));
                 // clock steps that are not multiples of the 1 s tick (ticks then fire late)
                 v.push(mk(cfg(1, &[Uds], 2), Bounds { connects: 1, cmds: vec![Ev::Stop(true)], max_cmds: 1, advances: vec![700, 1000], max_advances: 4, ..Default::default() }));
+                // a stop issued after the server has gone: its future resolves all the same
+                v.push(mk(cfg(1, &[Uds], 2), Bounds { connects: 1, cmds: stops.clone(), max_cmds: 2, advances: vec![1000], max_advances: 3, cmds_after_done: true, ..Default::default() }));
                 // a tick that is handled more than one period late; extreme timeouts ("wait for ever", 0)
                 v.push(mk(Config { shutdown_timeout_s: 6, ..cfg(1, &[Uds], 2) }, Bounds { connects: 1, cmds: vec![Ev::Stop(true)], max_cmds: 1, advances: vec![2200, 1000], max_advances: 3, ..Default::default() }));
                 v.push(mk(Config { shutdown_timeout_s: u64::MAX, ..cfg(1, &[Uds], 2) }, Bounds { connects: 1, cmds: vec![Ev::Stop(true)], max_cmds: 1, advances: vec![1000], max_advances: 3, ..Default::default() }));
